@@ -128,7 +128,7 @@ func runNative(cs *CheckSpec, pkgPath string, funcs []string, vecs []replayVec, 
 	}
 	overlay := map[string]string{}
 	for virt, real := range cs.Files {
-		overlay[filepath.Join(repoDir, virt)] = filepath.Join(verifDir, real)
+		overlay[filepath.Join(repoDir, virt)] = absVerif(real)
 	}
 	overlay[filepath.Join(repoDir, "zzrt/zzrt.go")] = filepath.Join(verifDir, "harness/zzrt/zzrt_native.go")
 	var tb strings.Builder
@@ -193,7 +193,7 @@ func packageName(dir string, cs *CheckSpec, rel string) (string, error) {
 	}
 	for virt, real := range cs.Files {
 		if filepath.Dir(virt) == rel || (rel == "" && filepath.Dir(virt) == ".") {
-			files = append(files, filepath.Join(verifDir, real))
+			files = append(files, absVerif(real))
 		}
 	}
 	for _, f := range files {
@@ -233,6 +233,10 @@ func cmdReplay(args []string) int {
 	work := filepath.Join(verifDir, ".work", fmt.Sprintf("replay-%d", os.Getpid()))
 	os.MkdirAll(work, 0o755)
 	defer os.RemoveAll(work)
+	if err := runGenerators(cs, work); err != nil {
+		fmt.Println(err)
+		return 2
+	}
 	res, err := nativeReplay(cs, specs, []*Violation{&v}, work)
 	if err != nil {
 		fmt.Println(err)
